@@ -193,7 +193,8 @@ class ProxyProtocolV1(object):
         try:
             with _header_timeout(self):
                 src_addr, _ = self.process_pp_v1(sock, b'')
-        except Timeout:
+        except (Timeout, socket.error):
+            # No header in time, or the connection broke while it was read.
             return
         except AssertionError as exc:
             log.proxyproto_invalid(sock, exc)
@@ -311,7 +312,8 @@ class ProxyProtocolV2(object):
         try:
             with _header_timeout(self):
                 src_addr, _ = self.process_pp_v2(sock, b'')
-        except Timeout:
+        except (Timeout, socket.error):
+            # No header in time, or the connection broke while it was read.
             return
         except LocalConnection:
             log.proxyproto_local(sock)
@@ -380,7 +382,8 @@ class ProxyProtocol(object):
                     src_addr, _ = ProxyProtocolV2.process_pp_v2(sock, initial)
                 else:
                     raise AssertionError('Invalid proxy protocol signature')
-        except Timeout:
+        except (Timeout, socket.error):
+            # No header in time, or the connection broke while it was read.
             return
         except LocalConnection:
             log.proxyproto_local(sock)
